@@ -134,7 +134,7 @@ def _mark_clauses(lines, base_id):
     for line in lines:
         s = line.strip()
         code = re.sub(r"//.*$", "", s).strip()
-        if not code:
+        if not code or (code.startswith("/*") and code.endswith("*/")):
             out.append(line)
             continue
         m = re.match(r"^(requires|ensures|invariant|invariant_except_break|decreases|recommends|no_unwind|opens_invariants|returns)\b(.*)$", code)
@@ -368,7 +368,30 @@ def annotate_file(src, fspec, relfile):
         out = "#[allow(unused_imports)] use vstd::prelude::*;\nverus! {\n" + top + "\n" + out + "\n" + bottom + "\n} // verus!\n"
     elif top or bottom:
         out = out + "\n#[allow(unused_imports)] use vstd::prelude::*;\nverus! {\n" + top + "\n" + bottom + "\n} // verus!\n"
+    if fspec.wrap:
+        out = _bytestr_to_array(out, r"^verus! \{")
     return out, obligations, fn_props
+
+
+def _bytestr_to_array(text, wrap_from):
+    """R11: byte-string literals b"xy" -> &[120u8, 121] inside the verified region (Verus knows the
+    length but not the contents of a byte-string literal; an array literal is the same value)."""
+    import ast
+    start = 0
+    if wrap_from:
+        m = re.search(wrap_from, text, re.M)
+        start = m.start() if m else 0
+    toks = rustlex.lex(text)
+    out = text
+    for t in reversed(toks):
+        if t.kind == "lit" and t.text.startswith('b"') and t.start >= start:
+            bs = ast.literal_eval(t.text)
+            if len(bs) == 0:
+                rep = "&[0u8; 0]"
+            else:
+                rep = "&[" + ", ".join(("%du8" % b) if i == 0 else str(b) for i, b in enumerate(bs)) + "]"
+            out = out[:t.start] + rep + out[t.end:]
+    return out
 
 
 def make_twin(text, toks, f, fs):
@@ -426,9 +449,23 @@ def make_twin(text, toks, f, fs):
     params = r + (", " + rest if rest.strip() else "")
     tail = sub_tokens(f.params_close + 1, f.body_close)
     unsafe = "unsafe " if any(toks[q].text == "unsafe" for q in range(f.item_start, f.fn_tok)) else ""
-    tw = "pub %sfn %s<%s>(%s)%s" % (unsafe, name, generics, params, tail)
+    # keep the item's attributes (loop_isolation, ...) except external_body
+    attrs = []
+    q = f.item_start
+    while q < f.fn_tok:
+        if toks[q].text == "#" and toks[q + 1].text == "[":
+            a = text[toks[q].start:toks[toks[q + 1].match].end]
+            if "external_body" not in a and "inline" not in a:
+                attrs.append(a)
+            q = toks[q + 1].match + 1
+        else:
+            q += 1
+    tw = "%s\npub %sfn %s<%s>(%s)%s" % ("\n".join(attrs), unsafe, name, generics, params, tail)
     for a, b in fs.twin_subst:
-        tw = tw.replace(a, b)
+        tw = re.sub(r"(?<![A-Za-z0-9_])" + re.escape(a) + r"(?![A-Za-z0-9_])", lambda m: b, tw)
+    # a trait-impl method cannot carry `requires`; its twin can (the method's assumed contract is
+    # conditional on the same predicate)
+    tw = re.sub(r"/\*TWIN-REQUIRES:(.*?)\*/", lambda m: "requires " + m.group(1).strip() + ",", tw)
     return tw
 
 
